@@ -693,3 +693,305 @@ def _post_results(mon, fs, job):
 
 
 POST["results"] = _post_results
+
+
+# --------------------------------------------------------------------------
+# Monitor "ns_stop": stopping rule of the standard sampler (C15)
+def install_ns_stop(mon):
+    from nessai.samplers.nestedsampler import NestedSampler
+
+    rec = mon.data.setdefault("ns_stop", {"n": 0})
+    st = {"logZ": None, "n_done": 0, "conds": [], "last_live_max": None}
+
+    def log_width(k, n, expectation):
+        # log(X_{k-1} - X_k) for constant n
+        if expectation == "logt":
+            lt = -1.0 / n
+        else:
+            lt = -np.log1p(1.0 / n)
+        return (k - 1) * lt + np.log(-np.expm1(lt))
+
+    def before(self):
+        lp = self.live_points
+        return None if lp is None else float(lp["logL"].max())
+
+    def after(self, lmax_before, _):
+        V = mon.violation
+        n = self.nlive
+        i = self.iteration  # iterations completed, = index of removed point
+        ns_ = self.nested_samples
+        if st["logZ"] is None or st["n_done"] != i - 1:
+            # (re)start the independent accumulator from the dead points
+            lz = -np.inf
+            for k in range(1, i):
+                lz = np.logaddexp(lz, float(ns_[k - 1]["logL"]) + log_width(
+                    k, n, self.state.expectation))
+            st["logZ"] = lz
+        st["logZ"] = np.logaddexp(
+            st["logZ"], float(ns_[i - 1]["logL"]) + log_width(
+                i, n, self.state.expectation))
+        st["n_done"] = i
+        lz = st["logZ"]
+        lmax_after = float(self.live_points["logL"].max())
+        lo = np.logaddexp(lz, lmax_before - i / float(n)) - lz
+        hi = np.logaddexp(lz, lmax_after - (i - 1) / float(n)) - lz
+        c = float(self.condition)
+        tol = 1e-9 * max(1.0, abs(hi))
+        if not (lo - tol <= c <= hi + tol):
+            V("condition!=log(1+Lmax*X/Z)",
+              f"it={i}: recorded {c!r}, definition gives [{lo!r}, {hi!r}]")
+        st["conds"].append((int(i), c))
+        mon.count("ns_stop.iterations")
+
+    wrap(NestedSampler, "consume_sample", before, after)
+
+    def after_loop(self, _t, _r):
+        V = mon.violation
+        conds = st["conds"]
+        tol = self.tolerance
+        rec["n"] = len(conds)
+        rec["tolerance"] = float(tol)
+        rec["max_iteration"] = None if not np.isfinite(self.max_iteration) \
+            else int(self.max_iteration)
+        if not conds:
+            return
+        for it, c in conds[:-1]:
+            if not c > tol:
+                V("continued-although-condition<=tolerance",
+                  f"it={it}: condition {c!r} <= {tol!r} but the run went on "
+                  f"to iteration {conds[-1][0]}")
+                break
+        it, c = conds[-1]
+        rec["last"] = [it, c]
+        if c > tol and it < self.max_iteration:
+            V("stopped-although-condition>tolerance",
+              f"it={it}: condition {c!r} > {tol!r}, cap {self.max_iteration}")
+        if c <= tol:
+            mon.classes.add("stopped-by-tolerance")
+            if not self.finalised:
+                V("tolerance-reached-but-not-finalised", f"it={it}")
+        else:
+            mon.classes.add("stopped-by-cap")
+        if it > self.max_iteration:
+            pre = "rerun-of-capped-run:" if st.get("start_capped") else ""
+            V(pre + "iteration-cap-exceeded",
+              f"{it} > {self.max_iteration} (loop entered at iteration "
+              f"{st.get('start_iteration')})")
+        # history reports the compared values
+        h = self.history
+        byit = dict(conds)
+        for hit, hval in zip(h["iterations"], h["dlogZ"]):
+            if hit in byit and byit[hit] != hval:
+                V("history-dlogZ!=compared-value",
+                  f"it={hit}: history {hval!r} compared {byit[hit]!r}")
+                break
+
+    def before_loop(self):
+        st["start_iteration"] = int(self.iteration)
+        st["start_capped"] = bool(
+            self.iteration >= self.max_iteration and not self.finalised)
+
+    wrap(NestedSampler, "nested_sampling_loop", before_loop, after_loop)
+
+
+INSTALLERS["ns_stop"] = install_ns_stop
+
+
+# --------------------------------------------------------------------------
+# Monitor "ins_stop": stopping rule of the importance sampler (C15)
+def install_ins_stop(mon):
+    from scipy.special import logsumexp
+    from nessai.samplers.importancesampler import ImportanceNestedSampler
+
+    rec = mon.data.setdefault("ins_stop", {})
+    st = {"crit": [], "prev_logZ": None, "all": []}
+
+    def after_crit(self, _t, result):
+        V = mon.violation
+        s = self.samples_unit
+        lw = (s["logL"] + s["logW"]).astype(float)
+        N = lw.size
+        logZ = float(logsumexp(lw) - np.log(N))
+        # standard definitions recomputed from the samples
+        lp = lw - logsumexp(lw)
+        ess = float(np.exp(-logsumexp(2 * lp)))
+        Zi = np.exp(lw.astype(np.longdouble))
+        Zh = np.exp(np.longdouble(logZ))
+        frac = float(np.sqrt(np.sum((Zi - Zh) ** 2) / (N * (N - 1.0))) / Zh)
+        it = int(self.iteration)
+        if st["prev_logZ"] is None or it == 0:
+            dz = np.inf
+        else:
+            dz = abs(logZ - st["prev_logZ"])
+        st["prev_logZ"] = logZ
+
+        def close(a, b, rel):
+            if a == b:
+                return True
+            return np.isfinite(a) and np.isfinite(b) and \
+                abs(a - b) <= rel * max(1.0, abs(a), abs(b))
+
+        if not close(float(self.ess), ess, 1e-8):
+            V("ess!=kish-ess-of-posterior-weights",
+              f"it={it}: {float(self.ess)!r} vs {ess!r}")
+        if st.get("have_prev") and not close(float(self.log_dZ), dz, 1e-8) \
+                and not (abs(float(self.log_dZ) - dz) <= 1e-10):
+            V("log_dZ!=|change-of-logZ|",
+              f"it={it}: {float(self.log_dZ)!r} vs {dz!r}")
+        st["have_prev"] = True
+        if not close(float(self.fractional_error), frac, 1e-7):
+            V("fractional_error!=se(Z)/Z",
+              f"it={it}: {float(self.fractional_error)!r} vs {frac!r}")
+        vals = {k: float(getattr(self, k)) for k in
+                self.stopping_criterion_aliases}
+        st["all"].append(vals)
+        crit = [float(c) for c in result]
+        if crit != [vals[k] for k in self.stopping_criterion]:
+            V("criterion-list!=configured-criteria", f"it={it}")
+        st["crit"].append(crit)
+        mon.count("ins_stop.iterations")
+
+    wrap(ImportanceNestedSampler, "compute_stopping_criterion", None,
+         after_crit)
+
+    def before_loop(self):
+        st["start_iteration"] = int(self.iteration)
+        st["was_finalised"] = bool(self.finalised)
+
+    def after_loop(self, _t, _r):
+        V = mon.violation
+        if st["was_finalised"]:
+            return
+        K = int(self.iteration)
+        tol = [float(t) for t in self.tolerance]
+        any_ = bool(self._stop_any)
+        crit = st["crit"]
+        start = st["start_iteration"]
+        rec.update({"K": K, "tolerance": tol, "any": any_,
+                    "criteria": list(self.stopping_criterion),
+                    "n_recorded": len(crit),
+                    "min_iteration": int(self.min_iteration),
+                    "max_iteration": None if not np.isfinite(
+                        self.max_iteration) else int(self.max_iteration)})
+        if K - start != len(crit):
+            V("iterations!=criterion-evaluations",
+              f"{K}-{start} vs {len(crit)}")
+            return
+
+        def reached(c):
+            flags = [ci <= ti for ci, ti in zip(c, tol)]
+            return any(flags) if any_ else all(flags)
+
+        mn = self.min_iteration
+        # completed-iteration count j (1-based) after evaluating crit[j-1-start]
+        def first_stop(offset):
+            for idx, c in enumerate(crit):
+                j = start + idx + 1
+                if reached(c) and (j - offset) >= mn:
+                    return j
+            return None
+
+        allowed = {first_stop(0), first_stop(1)}
+        capped = K >= self.max_iteration
+        if capped:
+            mon.classes.add("stopped-by-cap")
+            # must not have passed an earlier stop
+            early = [a for a in allowed if a is not None and a < K]
+            if len(early) == 2 or (early and first_stop(0) is not None
+                                   and first_stop(0) < K):
+                V("continued-although-criteria-met",
+                  f"criteria met after {first_stop(0)} iterations, ran {K}")
+        else:
+            mon.classes.add("stopped-by-tolerance")
+            if K not in allowed:
+                V("stop-iteration!=first-iteration-meeting-criteria",
+                  f"stopped after {K}, criteria first met after "
+                  f"{sorted(a for a in allowed if a is not None)} "
+                  f"(min_iteration={mn})")
+        if K > self.max_iteration:
+            V("iteration-cap-exceeded", f"{K} > {self.max_iteration}")
+        # history reports the compared values
+        hsc = self.history["stopping_criteria"]
+        for k in self.stopping_criterion_aliases:
+            got = [float(v) for v in hsc[k][start:K]]
+            exp = [v[k] for v in st["all"]]
+            same = len(got) == len(exp) and all(
+                (a == b) or (np.isnan(a) and np.isnan(b))
+                for a, b in zip(got, exp))
+            if not same:
+                V("history-criterion!=compared-value", f"criterion {k}")
+                break
+        # every remaining live point consumed exactly once
+        for name, store in (("training", self.training_samples),
+                            ("iid", self.iid_samples)):
+            if store is None:
+                continue
+            idx = np.asarray(store.nested_samples_indices)
+            if store.live_points_indices is not None or \
+                    idx.size != store.samples.size or \
+                    not np.array_equal(np.sort(idx),
+                                       np.arange(store.samples.size)):
+                V(f"finalise:live-points-not-consumed-once:{name}",
+                  f"{idx.size} discarded indices for {store.samples.size} "
+                  "samples")
+
+    wrap(ImportanceNestedSampler, "nested_sampling_loop", before_loop,
+         after_loop)
+
+
+INSTALLERS["ins_stop"] = install_ins_stop
+
+
+# --------------------------------------------------------------------------
+# Post analyser "idem": result digest; compared with the digest recorded by an
+# earlier step of the same history (resume after finish) and with a second
+# run() in the same process.
+def result_digest(fs):
+    ns = fs.ns
+    nested = np.ascontiguousarray(np.asarray(fs.nested_samples))
+    post_w = np.ascontiguousarray(np.asarray(
+        ns.state.log_posterior_weights, dtype=float))
+    return {
+        "nested": h(nested.tobytes()),
+        "n": int(nested.size),
+        "log_evidence": repr(float(fs.log_evidence)),
+        "log_evidence_error": repr(float(fs.log_evidence_error)),
+        "weights": h(post_w.tobytes()),
+        "evaluations": int(ns.model.likelihood_evaluations),
+    }
+
+
+def _post_idem(mon, fs, job):
+    V = mon.violation
+    d1 = result_digest(fs)
+    path = os.path.join(mon.hdir, "final_digest.json")
+    ns = fs.ns
+    capped = (not job.get("ins")) and (not ns.finalised) and \
+        ns.iteration >= ns.max_iteration
+    pre = "rerun-of-capped-run:" if capped else ""
+    if capped:
+        mon.classes.add("capped-standard-run")
+    if os.path.exists(path):
+        d0 = json.load(open(path))
+        mon.classes.add("resumed-after-finish")
+        for k in d0:
+            if d0[k] != d1[k]:
+                V(f"{pre}resume-after-finish:{k}-changed",
+                  f"{d0[k]} -> {d1[k]}")
+    else:
+        with open(path, "w") as f:
+            json.dump(d1, f)
+    calls0 = mon.model.points
+    fs.run(**dict({"plot": False}, **job.get("run_kwargs", {})))
+    d2 = result_digest(fs)
+    mon.classes.add("second-run")
+    for k in d1:
+        if d1[k] != d2[k]:
+            V(f"{pre}second-run:{k}-changed", f"{d1[k]} -> {d2[k]}")
+    if mon.model.points != calls0:
+        V(f"{pre}second-run:likelihood-was-evaluated",
+          f"{mon.model.points - calls0} points")
+    mon.data["digest"] = d1
+
+
+POST["idem"] = _post_idem
